@@ -54,7 +54,9 @@ func (a *afPacketSource) Read(buf []byte) (int, error) {
 		}
 		payload, err = stripEthernetHeader(buf[:n])
 		if err != nil {
-			return n, err
+			// a frame too short to carry an ethernet header is not an IP packet either: skip it
+			log.Tracef("afPacketSource skipped a malformed frame: %s", err)
+			payload = nil
 		}
 	}
 	copy(buf, payload)
